@@ -95,7 +95,7 @@ def run(ctx):
     model = build_model_driver(ctx, 'poll', 'ExtractPoll.v', 'poll_driver.ml')
     # (a) sequential differential, wrap boundaries
     exe = os.path.join(BUILD, 'poll_probe')
-    rc, so, se = sh(['gcc', '-O1', '-g', '-w', '-I' + REPO + '/include', '-I' + REPO + '/src', os.path.join(HARN, 'seqdiff/poll.c'), '-o', exe, '-lpthread'])
+    rc, so, se = sh(['gcc', '-O1', '-g', '-w', '-include', REPO + '/include/config.h', '-I' + REPO + '/include', '-I' + REPO + '/src', os.path.join(HARN, 'seqdiff/poll.c'), '-o', exe, '-lpthread'])
     if rc: ctx.fail('harness', 'build of seqdiff/poll.c', se[-800:])
     elif model:
         nseq = 16 if ctx.quick() else 200
